@@ -540,6 +540,18 @@ theorem step_DOk (c : Cfg) (h : HState) (op : HOp) : DOk h.a (h.step c op).a := 
     · exact DOk_of_disc_eq rfl
   | incDiscarded n => exact incDiscarded_DOk c h.a n
   | discardFreelist => exact discardFreelist_DOk c h.a
+  | clear =>
+    simp only [HState.step]
+    split
+    · exact DOk.refl _
+    · right
+      show (0 : Nat) < TWO32
+      unfold TWO32; omega
+  | truncate n =>
+    simp only [HState.step]
+    split
+    · exact DOk.refl _
+    · exact DOk_of_disc_eq rfl
 
 theorem sp_mod_reach (x y : Nat) (hx : x < TWO32) : ∃ d, x = (y + d) % TWO32 := by
   refine ⟨x + (TWO32 - y % TWO32), ?_⟩
